@@ -236,6 +236,7 @@ package pubsub
 
 //@ func (*GossipSubRouter).sendPrune
 //@   property C07 C08
+//@   requires wf: wfGS(gs)
 //@   noframe
 //@   modifies nPrune
 //@   ghost-effect counted: nPrune[topic][p] == old(nPrune[topic][p]) + 1 &&
@@ -328,7 +329,7 @@ package pubsub
 // given the unsubscribe backoff; other meshes are untouched.
 //@ func (*GossipSubRouter).Leave
 //@   property C07 C08 C19
-//@   requires sep: sepMesh(gs) && sepBackoff(gs) && validBackoffParams(gs)
+//@   requires sep: sepMesh(gs) && sepBackoff(gs) && validBackoffParams(gs) && wfGS(gs)
 //@   noframe
 //@   loop 1 invariant pruning: !(topic in gs.mesh) && gmap == old(gs.mesh[topic]) &&
 //@        (forall q string :: nPrune[topic][q] - old(nPrune[topic][q]) == ite($visited[q], 1, 0)) &&
